@@ -47,6 +47,7 @@ type actor struct {
 
 	sctx    lungo.ISessionContext // set while inside a session transaction
 	priv    lungo.ISession        // session the actor keeps across operations (Op.Sess == privSess)
+	lazy    []lazyCursor          // cursors opened inside the current transaction body, read at its end
 	pendingCommits []int
 	streams []*streamState
 	stale   []*lungo.Transaction
@@ -72,6 +73,7 @@ type streamState struct {
 
 	matchedStart int
 	checked      bool
+	scanned      int // global index of an event the stream is known to have examined (0: none); its position is at or after it
 }
 
 // classifyErr names an error for whitelists and logs.
@@ -290,6 +292,21 @@ func (a *actor) exec(op *Op) *CallRec {
 		})
 	case "e.txn":
 		return a.engineTxn(op)
+	case "findLater":
+		return a.call(op, func(c *CallRec) {
+			ctx, done := a.ctxFor(op)
+			defer done()
+			csr, err := e.client.Database(op.DB).Collection(op.C).Find(ctx, nonNil(op.F.doc()))
+			if err != nil {
+				c.Err = err
+				return
+			}
+			if a.sctx == nil {
+				c.Res.Docs, c.Err = cursorDocs(ctx, csr)
+				return
+			}
+			a.lazy = append(a.lazy, lazyCursor{csr, c})
+		})
 	case "s.txn":
 		return a.sessionTxn(op)
 	case "s.with":
@@ -448,6 +465,26 @@ func (a *actor) engineWrite(op *Op) *CallRec {
 	})
 }
 
+// lazyCursor is a cursor opened by a "findLater" call inside a transaction body: it is read only after the rest
+// of the body has run, and must still show the documents of the moment it was opened.
+type lazyCursor struct {
+	csr lungo.ICursor
+	rec *CallRec
+}
+
+func (a *actor) drainLazy(ctx context.Context) {
+	for _, l := range a.lazy {
+		docs, err := cursorDocs(ctx, l.csr)
+		if err != nil {
+			l.rec.Err = err
+			continue
+		}
+		l.rec.Res.Docs = docs
+		a.e.logf("[%s]   cursor of %s read at the end of the body -> %d docs", a.t.Name, opStr(l.rec.Op), len(docs))
+	}
+	a.lazy = nil
+}
+
 // privSess marks operations that run on the session the actor keeps across operations.
 const privSess = 7
 
@@ -583,6 +620,7 @@ func (a *actor) sessionTxn(op *Op) *CallRec {
 					c.Subs = append(c.Subs, r)
 				}
 			}
+			a.drainLazy(sc)
 			switch op.End {
 			case "abort":
 				return sess.AbortTransaction(sc)
@@ -635,6 +673,7 @@ func (a *actor) withTxn(op *Op) *CallRec {
 					c.Subs = append(c.Subs, r)
 				}
 			}
+			a.drainLazy(sc)
 			switch op.End {
 			case "error":
 				e.fault("callback-error")
